@@ -1206,3 +1206,106 @@ Proof.
                  match parse_hex (hex_of_Z z) with OVal x => yint x | OErr => YErr | OUnm => YUnm end) by reflexivity.
     rewrite Hb, Q1. reflexivity.
 Qed.
+
+(* ------------------------------------------------------------------ url / hex codecs *)
+Definition is_byte (c : byte) : Prop := (c < 256)%N.
+
+Lemma hex_digit_upper : forall d, (d < 16)%N -> hex_digit (hex_upper d) = Some (Z.of_N d).
+Proof.
+  intros d H. unfold hex_upper, hex_digit. destruct (d <? 10)%N eqn:E.
+  - apply N.ltb_lt in E.
+    assert (E1 : (48 <=? 48 + d)%N && (48 + d <=? 57)%N = true)
+      by (apply andb_true_iff; split; apply N.leb_le; lia).
+    rewrite E1. f_equal. f_equal. lia.
+  - apply N.ltb_ge in E.
+    assert (E1 : (48 <=? 55 + d)%N && (55 + d <=? 57)%N = false)
+      by (apply andb_false_iff; right; apply N.leb_gt; lia).
+    assert (E2 : (97 <=? 55 + d)%N && (55 + d <=? 102)%N = false)
+      by (apply andb_false_iff; left; apply N.leb_gt; lia).
+    assert (E3 : (65 <=? 55 + d)%N && (55 + d <=? 70)%N = true)
+      by (apply andb_true_iff; split; apply N.leb_le; lia).
+    rewrite E1, E2, E3. f_equal. f_equal. lia.
+Qed.
+
+Lemma byte_of_nibbles : forall c, (c < 256)%N ->
+  (c / 16 < 16)%N /\ (c mod 16 < 16)%N /\ Z.to_N (Z.of_N (c / 16) * 16 + Z.of_N (c mod 16)) = c.
+Proof.
+  intros c H. split; [apply N.div_lt_upper_bound; [discriminate|exact H]|].
+  split; [apply N.mod_lt; discriminate|].
+  replace (Z.of_N (c / 16) * 16 + Z.of_N (c mod 16))%Z with (Z.of_N (16 * (c / 16) + c mod 16)).
+  - rewrite N2Z.id. symmetry. apply N.div_mod'.
+  - rewrite N2Z.inj_add, N2Z.inj_mul. simpl Z.of_N. ring.
+Qed.
+
+Theorem hex_codec_roundtrip : forall s, Forall is_byte s ->
+  hex_decode (hex_encode s) = Some s /\ length (hex_encode s) = 2 * length s.
+Proof.
+  intros s H. induction H as [|c s Hc Hs IH]; [split; reflexivity|].
+  destruct IH as [IH1 IH2]. destruct (byte_of_nibbles c Hc) as [B1 [B2 B3]]. split.
+  - simpl hex_encode. simpl hex_decode.
+    rewrite (hex_digit_char _ B1), (hex_digit_char _ B2), IH1. simpl. rewrite B3. reflexivity.
+  - simpl. rewrite IH2. lia.
+Qed.
+
+Lemma url_unreserved_plain : forall c, url_unreserved c = true -> c <> 37%N /\ c <> 43%N.
+Proof.
+  intros c H. unfold url_unreserved, is_alnum in H.
+  repeat (apply orb_true_iff in H; destruct H as [H|H]);
+    try (apply andb_true_iff in H; destruct H as [H1 H2]; apply N.leb_le in H1; apply N.leb_le in H2; lia);
+    try (apply N.eqb_eq in H; lia).
+Qed.
+
+Theorem url_codec_roundtrip : forall s, Forall is_byte s -> url_unescape (url_escape s) = Some s.
+Proof.
+  intros s H. induction H as [|c s Hc Hs IH]; [reflexivity|].
+  simpl url_escape. destruct (url_unreserved c) eqn:U.
+  - destruct (url_unreserved_plain c U) as [N1 N2].
+    simpl url_unescape.
+    assert (E1 : (c =? 37)%N = false) by (apply N.eqb_neq; exact N1).
+    assert (E2 : (c =? 43)%N = false) by (apply N.eqb_neq; exact N2).
+    rewrite E1, E2, IH. reflexivity.
+  - destruct (c =? 32)%N eqn:E32.
+    + apply N.eqb_eq in E32. subst c. simpl url_unescape. rewrite IH. reflexivity.
+    + destruct (byte_of_nibbles c Hc) as [B1 [B2 B3]].
+      change (url_unescape (37%N :: hex_upper (c / 16) :: hex_upper (c mod 16) :: url_escape s))
+        with (match hex_digit (hex_upper (c / 16)), hex_digit (hex_upper (c mod 16)) with
+              | Some a, Some b => option_map (cons (Z.to_N (a * 16 + b))) (url_unescape (url_escape s))
+              | _, _ => None
+              end).
+      rewrite (hex_digit_upper _ B1), (hex_digit_upper _ B2), IH. simpl. rewrite B3. reflexivity.
+Qed.
+
+(* through the calls: url_decode(url_encode(s)) = s, decode(encode(s, 'hex'), 'hex') = s, and the
+   same for the 'url' format *)
+Theorem codec_calls_roundtrip : forall s, Forall is_byte s ->
+  fx_call nm_url_encode [YS (VStr s)] = ystr (url_escape s) /\
+  fx_call nm_url_decode [YS (VStr (url_escape s))] = ystr s /\
+  fx_call nm_encode [YS (VStr s); YS (VStr fmt_hex)] = ystr (hex_encode s) /\
+  fx_call nm_decode [YS (VStr (hex_encode s)); YS (VStr fmt_hex)] = ystr s /\
+  fx_call nm_encode [YS (VStr s); YS (VStr fmt_url)] = ystr (url_escape s) /\
+  fx_call nm_decode [YS (VStr (url_escape s)); YS (VStr fmt_url)] = ystr s.
+Proof.
+  intros s H. pose proof (url_codec_roundtrip s H) as U. destruct (hex_codec_roundtrip s H) as [X _].
+  assert (G : forall n args r, fx_arity n <> None ->
+            (forall a, fx_arity n = Some a -> arity_ok a (length args) = true) ->
+            (forall vs, fn_call n vs = FUnmodelled) -> fx_body n args = r -> fx_call n args = r).
+  { intros n args r Hn Hk Hf Hb. unfold fx_call. destruct (fx_arity n) as [a|] eqn:Ea; [|contradiction].
+    rewrite (Hk a eq_refl). simpl negb. cbv beta iota.
+    destruct (scalars args) as [vs|]; [rewrite Hf|]; exact Hb. }
+  split; [|split; [|split; [|split; [|split]]]].
+  - apply G; [discriminate|intros a Ha; inversion Ha; reflexivity|intros vs; reflexivity|reflexivity].
+  - apply G; [discriminate|intros a Ha; inversion Ha; reflexivity|intros vs; reflexivity|].
+    change (fx_body nm_url_decode [YS (VStr (url_escape s))])
+      with (match url_unescape (url_escape s) with Some r => ystr r | None => YErr end).
+    rewrite U. reflexivity.
+  - apply G; [discriminate|intros a Ha; inversion Ha; reflexivity|intros vs; reflexivity|reflexivity].
+  - apply G; [discriminate|intros a Ha; inversion Ha; reflexivity|intros vs; reflexivity|].
+    change (fx_body nm_decode [YS (VStr (hex_encode s)); YS (VStr fmt_hex)])
+      with (match hex_decode (hex_encode s) with Some r => ystr r | None => YErr end).
+    rewrite X. reflexivity.
+  - apply G; [discriminate|intros a Ha; inversion Ha; reflexivity|intros vs; reflexivity|reflexivity].
+  - apply G; [discriminate|intros a Ha; inversion Ha; reflexivity|intros vs; reflexivity|].
+    change (fx_body nm_decode [YS (VStr (url_escape s)); YS (VStr fmt_url)])
+      with (match url_unescape (url_escape s) with Some r => ystr r | None => YErr end).
+    rewrite U. reflexivity.
+Qed.
